@@ -39,9 +39,9 @@ func (h H) ID() string {
 // Version implements harness.Harness.
 func (h H) Version() string {
 	if h.Filters {
-		return "c09-v4-filters"
+		return "c09-v5-filters"
 	}
-	return "c09-v4"
+	return "c09-v5"
 }
 
 // Runs implements harness.Harness.
@@ -206,6 +206,9 @@ type kernelCfg struct {
 type cfg struct {
 	Alg         string
 	Dispatchers int
+	// CUPortBuf > 0: capacity of the command processor's CU-facing port (hook cp.VerifCUPortBuf);
+	// 0 = the shipped 4096, which no workload fills
+	CUPortBuf int
 	CUs         []cuCfg
 	Kernels     []kernelCfg
 }
@@ -251,6 +254,9 @@ func ceilDiv(a, b int) int { return (a + b - 1) / b }
 func (h H) Run(ch *choice.Source, opt harness.Options) harness.Result {
 	r := rig.New(ch, 2_000_000)
 	c := cfg{Alg: []string{"round-robin", "greedy", "partition"}[ch.Pick([]int{2, 1, 1}, "alg")], Dispatchers: 1 + ch.Intn(8, "dispatchers")}
+	if ch.Bool(1, 2, "cuport.small") {
+		c.CUPortBuf = 1 + ch.Intn(6, "cuport.buf")
+	}
 	nCU := 1 + ch.Intn(8, "cus")
 	if ch.Bool(1, 2, "fewcus") {
 		nCU = 1 + ch.Intn(3, "cus.few")
@@ -421,7 +427,12 @@ func (h H) Run(ch *choice.Source, opt harness.Options) harness.Result {
 		cus = append(cus, cu)
 		b = b.WithCU(cu)
 	}
+	cp.VerifCUPortBuf = c.CUPortBuf
 	proc := cp.VerifBuild(b, "CP", c.Alg, c.Dispatchers)
+	cp.VerifCUPortBuf = 0
+	if c.CUPortBuf > 0 {
+		probes["small_cu_facing_port"] = 1
+	}
 	cuPorts := []sim.Port{proc.ToCUs}
 	cuIndex := map[sim.RemotePort]int{}
 	for i, cu := range cus {
